@@ -58,14 +58,15 @@ def rule_step(rep, tname, m):
     facts = rep.ctx.facts
     R = "R-C06-step"
     fn = m["fn"]
-    L = m["locals"]
-    t0, te, inc = L.get("t_ratio"), L.get("t_ratio_end"), L.get("t_ratio_increment")
-    rep.ob(R, "%s/t0" % tname, t0 is not None and nbit(t0) == "(f:1 / self.resample_ratio)", "t_ratio starts at %s (must be 1.0/self.resample_ratio)" % show(t0), loc(fn))
-    rep.ob(R, "%s/t_end" % tname, te is not None and nbit(te) == "(f:1 / self.target_ratio)", "t_ratio_end = %s (must be 1.0/self.target_ratio)" % show(te), loc(fn))
+    roles = m["roles"]
+    t0, inc = roles["t0"], roles["inc"]
+    IDX, TV = roles["idx"], roles["t"]
+    rep.ob(R, "%s/t0" % tname, t0 is not None and nbit(t0) == "(f:1 / self.resample_ratio)", "the per-frame step starts at %s (must be 1.0/self.resample_ratio)" % show(t0), loc(fn))
+    rep.ob(R, "%s/step-variable" % tname, TV is not None, "the read position `%s` must be advanced by one step variable in every arm (found %s)" % (IDX, TV), loc(fn))
     alg = make_alg(facts, tname)
     r, t, Nn = alg.sym("resample_ratio"), alg.sym("target_ratio"), alg.sym("chunk_size")
     if inc is None:
-        rep.ob(R, "%s/increment" % tname, False, "no t_ratio_increment", loc(fn))
+        rep.ob(R, "%s/increment" % tname, False, "the step variable is not advanced by one common increment in all arms", loc(fn))
     else:
         iv = alg.conv(inc)
         if RESAMPLERS[tname]["fixed"] == "out":
@@ -79,19 +80,19 @@ def rule_step(rep, tname, m):
     for a in m["arms"]:
         key = "%s/%s" % (tname, a["variant"])
         ups = [s for s in a["steps"] if s[0] == "update"]
-        tu = [s for s in ups if s[1] == "t_ratio"]
-        iu = [s for s in ups if s[1] == "idx"]
+        tu = [s for s in ups if s[1] == TV]
+        iu = [s for s in ups if s[1] == IDX]
         ok = len(tu) == 1 and len(iu) == 1
         detail = "t_ratio updated %d×, idx updated %d× per frame" % (len(tu), len(iu))
         if ok:
-            ok = tu[0][2] == "+" and is_path(tu[0][3], "t_ratio_increment") or (tu[0][2] == "+" and inc is not None and nbit(tu[0][3]) == nbit(inc))
-            ok = ok and iu[0][2] == "+" and is_path(iu[0][3], "t_ratio")
+            ok = tu[0][2] == "+" and inc is not None and nbit(tu[0][3]) == nbit(inc)
+            ok = ok and iu[0][2] == "+" and is_path(iu[0][3], TV)
             detail = "t_ratio += %s ; idx += %s" % (show(tu[0][3])[:40], show(iu[0][3])[:40])
             # both updates precede every use of idx / t_ratio in the frame
             order = [s[0] if s[0] != "update" else "update:" + s[1] for s in a["steps"]]
             first_use = min([i for i, s in enumerate(a["steps"]) if s[0] in ("let", "assign", "call", "chanloop")] or [99])
-            iu_pos = order.index("update:idx")
-            tu_pos = order.index("update:t_ratio")
+            iu_pos = order.index("update:" + IDX)
+            tu_pos = order.index("update:" + TV)
             ok = ok and iu_pos < first_use and tu_pos < first_use
             a["t_before_idx"] = tu_pos < iu_pos
         rep.ob(R, key, ok, detail + " (each exactly once per frame, idx advanced by t_ratio, before the position is used)", loc(fn, a["node"]),
@@ -104,7 +105,6 @@ def rule_scev(rep, tname, m):
     R = "R-C06-scev"
     fn = m["fn"]
     alg = make_alg(facts, tname)
-    L = m["locals"]
     r, t = alg.sym("resample_ratio"), alg.sym("target_ratio")
     for a in m["arms"]:
         key = "%s/%s" % (tname, a["variant"])
@@ -117,8 +117,8 @@ def rule_scev(rep, tname, m):
             rep.ob(R, key, False, "loop range %s is not 0..N" % show(it), loc(fn, a["node"]))
             continue
         Nn = alg.conv(it["hi"])
-        inc = alg.conv(L["t_ratio_increment"])
-        t0 = alg.conv(L["t_ratio"])
+        inc = alg.conv(m["roles"]["inc"])
+        t0 = alg.conv(m["roles"]["t0"])
         tN = sp.simplify(t0 + Nn * inc)
         rep.ob(R, key, sp.simplify(tN - 1 / t) == 0,
                "after N = %s frames t_ratio = %s (must equal 1/target: the ramp completes exactly within the chunk; t_k = t0 + k·inc is linear, hence monotone and between the two reciprocals)" % (Nn, tN),
